@@ -4,9 +4,10 @@ from common import Failure
 from props._base import *  # noqa
 from refids import ref_res, ref_decode
 
-LEAN_MODULES = ['A5.Props.C02', 'A5.Props.C02Centre']
+LEAN_MODULES = ['A5.Props.C02', 'A5.Props.C02Centre', 'A5.Props.C02Inside']
 LEVEL = 'other'
-EXPLANATION = ('PROVED (Lean): the world cell maps to (0,0); in exact arithmetic the repaired wrap sends every value of [-540,540] (in particular theta-93 in (-273,87]) into [-180,180] by whole turns and leaves in-range values untouched; '
+EXPLANATION = ('NEW: planar half of the strictly-inside clause is a theorem (C02.centre_strictly_inside_planar): for every level, anchor and invertible quintant matrix the vertex mean of the placed pentagon lies strictly on the inner side of its five edges (affine invariance + kernel-decided base case on the exact rational values of the double constants). '
+               'PROVED (Lean): the world cell maps to (0,0); in exact arithmetic the repaired wrap sends every value of [-540,540] (in particular theta-93 in (-273,87]) into [-180,180] by whole turns and leaves in-range values untouched; '
                'whatever lonlat_to_cell returns for the centre has the resolution asked for; the lattice round trip holds whenever the centre lies in its unit triangle (C18); '
                'and UNCONDITIONALLY in exact arithmetic on the exact values of the double constants (`centre_roundtrip`): for every Hilbert level <= 30, every index and all six orientations the centroid of the cell\'s planar pentagon, taken through face_to_ij, is mapped by ij_to_s to the cell\'s own index (all 16 shapes keep a margin >= 1/10 from their unit triangle; BASIS_INVERSE*BASIS - I is bounded by 2^-50). '
                'TIED: cell_to_lonlat and lonlat_to_cell are compared bit for bit with their full IEEE-double Lean model every run. '
